@@ -150,18 +150,18 @@ Qed.
 
 (* list / reduce chains: when the handler raises on an element, the loop raises the
    same error; elements after it are not visited *)
-Lemma list_loop_elem_fail n env it keep h acc st x st1 k m st2 :
-  iter_next R env it st = (Ok (Some x), st1) ->
+Lemma list_loop_elem_fail {S} n (nxt : S -> M (option (val * S))) s keep h acc st x s' st1 k m st2 :
+  nxt s st = (Ok (Some (x, s')), st1) ->
   h x st1 = (Er k m, st2) ->
-  list_loop R (S n) env it keep h acc st = (Er k m, st2).
+  list_loop (Datatypes.S n) nxt s keep h acc st = (Er k m, st2).
 Proof.
   intros Hn Hh. cbn [list_loop]. rewrite (bind_ok _ _ _ _ _ Hn). now apply bind_er.
 Qed.
 
-Lemma reduce_loop_elem_fail n env it h acc st x st1 k m st2 :
-  iter_next R env it st = (Ok (Some x), st1) ->
+Lemma reduce_loop_elem_fail {S} n (nxt : S -> M (option (val * S))) s h acc st x s' st1 k m st2 :
+  nxt s st = (Ok (Some (x, s')), st1) ->
   h acc x st1 = (Er k m, st2) ->
-  reduce_loop R (S n) env it h acc st = (Er k m, st2).
+  reduce_loop (Datatypes.S n) nxt s h acc st = (Er k m, st2).
 Proof.
   intros Hn Hh. cbn [reduce_loop]. rewrite (bind_ok _ _ _ _ _ Hn). now apply bind_er.
 Qed.
